@@ -38,6 +38,18 @@ class Check(BaseCheck):
             yield dict(v=c["v"], t=c["t"], name=c["name"], pres=c.get("pres"), vdtype=c.get("vdtype"))
         v5, t5 = gen.cube5()
         rng = gen.rng_for(self.seed, "c12")
+        # exactly flat (zero volume) tetrahedra with generic integer coordinates next to proper ones: neither positive nor negative
+        for k in range(60 if self.quick else 400):
+            p = rng.integers(-6, 7, size=(6, 3)).astype(float)
+            a, b = int(rng.integers(1, 4)), int(rng.integers(1, 4))
+            p[3] = p[0] + a * (p[1] - p[0]) + b * (p[2] - p[0])            # coplanar with p0, p1, p2
+            e = p[[1, 2, 4]] - p[0]
+            if abs(np.linalg.det(e)) < 0.5 or len({tuple(x) for x in p}) < 6:
+                continue
+            t = np.array([[0, 1, 2, 4], [0, 1, 2, 3], [1, 2, 4, 5]] if abs(np.linalg.det(p[[2, 4, 5]] - p[1])) > 0.5 else [[0, 1, 2, 4], [0, 1, 2, 3], [0, 2, 1, 4]])
+            if k % 2:
+                t = t[:, [0, 2, 1, 3]]
+            yield dict(v=p, t=t, name="flat-tet")
         for r in range(2, 6):
             for sub in itertools.combinations(range(5), r):
                 for fl in range(1 << r):
